@@ -12,6 +12,7 @@ pub mod c07;
 pub mod c08;
 pub mod c12;
 pub mod c13;
+pub mod c14;
 pub mod c15;
 pub mod c16;
 pub mod c17;
@@ -19,5 +20,5 @@ pub mod c19;
 pub mod c20;
 
 pub fn registry() -> Vec<runner::Property> {
-    vec![c01::property(), c02::property(), c03::property(), c06::property(), c07::property(), c08::property(), c12::property(), c13::property(), c15::property(), c16::property(), c17::property(), c19::property(), c20::property()]
+    vec![c01::property(), c02::property(), c03::property(), c06::property(), c07::property(), c08::property(), c12::property(), c13::property(), c14::property(), c15::property(), c16::property(), c17::property(), c19::property(), c20::property()]
 }
